@@ -124,8 +124,14 @@ class SphinxBuild:
         self.freshenv = True
         self._written = False
 
-    def rebuild(self, changes):
-        """Incremental build in the same directories: ``changes`` maps relative path -> new text (None deletes the file)."""
+    def rebuild(self, changes, conf=None):
+        """Incremental build in the same directories: ``changes`` maps relative path -> new text (None deletes the file);
+        ``conf`` (if given) replaces the generated conf.py's settings."""
+        if conf is not None:
+            self.conf = dict(conf)
+            lines = ["extensions = ['myst_parser']", "exclude_patterns = ['_build']"] + [f"{k} = {v!r}" for k, v in self.conf.items()] + [self.confpy_extra]
+            with open(os.path.join(self.src, "conf.py"), "w", encoding="utf8") as f:
+                f.write("\n".join(lines) + "\n")
         for rel, content in changes.items():
             p = os.path.join(self.src, rel)
             if content is None:
